@@ -5,6 +5,7 @@ import p_xform
 import p_misc
 import p_scan
 import p_ls
+import p_gen
 
 REGISTRY = {}
 REGISTRY.update(p_bnf.REGISTRY)
@@ -13,3 +14,4 @@ REGISTRY.update(p_xform.REGISTRY)
 REGISTRY.update(p_misc.REGISTRY)
 REGISTRY.update(p_scan.REGISTRY)
 REGISTRY.update(p_ls.REGISTRY)
+REGISTRY.update(p_gen.REGISTRY)
